@@ -13,33 +13,46 @@ structure Preserves (c c' : Circuit) : Prop where
   inputs : c'.inputs.Sublist c.inputs
   outputs : c'.outputs.length = c.outputs.length
   ar : ArOK c → ArOK c'
+  /-- never more gates than the argument -/
+  size : c'.gates.length ≤ c.gates.length
   val : ∀ b v, IsValB c b v → IsValB c' b v ∧ c'.outputs.map v = c.outputs.map v
 
 theorem Preserves.refl {c : Circuit} (hw : WFS c) : Preserves c c :=
-  ⟨hw, List.Sublist.refl _, rfl, fun h => h, fun _ _ hv => ⟨hv, rfl⟩⟩
+  ⟨hw, List.Sublist.refl _, rfl, fun h => h, Nat.le_refl _, fun _ _ hv => ⟨hv, rfl⟩⟩
 
 theorem Preserves.trans {a b c : Circuit} (h1 : Preserves a b) (h2 : Preserves b c) : Preserves a c :=
-  ⟨h2.wfs, h2.inputs.trans h1.inputs, h2.outputs.trans h1.outputs, fun h => h2.ar (h1.ar h), fun bb v hv => by
+  ⟨h2.wfs, h2.inputs.trans h1.inputs, h2.outputs.trans h1.outputs, fun h => h2.ar (h1.ar h), Nat.le_trans h2.size h1.size, fun bb v hv => by
     obtain ⟨v1, o1⟩ := h1.val bb v hv
     obtain ⟨v2, o2⟩ := h2.val bb v v1
     exact ⟨v2, o2.trans o1⟩⟩
 
 theorem rrg_preserves {a : Bool} {c c' : Circuit} (hw : WFS c) (h : rrg a c = .ok c') : Preserves c c' := by
-  obtain ⟨w, hsub, hval, ho, hi, _, _, _⟩ := rrg_spec hw h
-  exact ⟨w, by rw [hi]; exact List.filter_sublist, by rw [ho], fun ha g hg => ha g (hsub g hg),
+  obtain ⟨w, hsub, hval, ho, hi, _, hsz, _⟩ := rrg_spec hw h
+  exact ⟨w, by rw [hi]; exact List.filter_sublist, by rw [ho], fun ha g hg => ha g (hsub g hg), hsz,
     fun b v hv => ⟨hval b v hv, by rw [ho]⟩⟩
+
+/-- a circuit whose (distinct) labels are labels of another has no more gates -/
+theorem size_of_shape {c c' : Circuit} (hnd' : c'.labels.Nodup) (sh : SameShape c c') :
+    c'.gates.length ≤ c.gates.length := by
+  have hsub : c'.labels ⊆ c.labels := by
+    intro l hl
+    obtain ⟨g', hg', hgl⟩ : ∃ g ∈ c'.gates, g.label = l := by simpa [Circuit.labels] using hl
+    obtain ⟨g, hg, e, _⟩ := sh g' hg'
+    rw [← hgl, e]; exact mem_labels_of_mem hg
+  have := List.Nodup.length_le_of_subset hnd' hsub
+  simpa [Circuit.labels] using this
 
 theorem muo_preserves {c c' : Circuit} (hw : WFS c) (h : muo c = .ok c') : Preserves c c' := by
   obtain ⟨w, hi, ho, sh, hval⟩ := muo_spec hw h
-  exact ⟨w, by rw [hi]; exact List.Sublist.refl _, ho, arOK_of_shape sh, hval⟩
+  exact ⟨w, by rw [hi]; exact List.Sublist.refl _, ho, arOK_of_shape sh, size_of_shape w.nodup sh, hval⟩
 
 theorem mdg_preserves {c c' : Circuit} (hw : WFS c) (h : mdg c = .ok c') : Preserves c c' := by
   obtain ⟨w, hi, ho, sh, hval⟩ := mdg_spec hw h
-  exact ⟨w, by rw [hi]; exact List.Sublist.refl _, ho, arOK_of_shape sh, hval⟩
+  exact ⟨w, by rw [hi]; exact List.Sublist.refl _, ho, arOK_of_shape sh, size_of_shape w.nodup sh, hval⟩
 
 theorem meg_preserves {c c' : Circuit} (hw : WFS c) (har : ArOK c) (h : meg c = .ok c') : Preserves c c' := by
   obtain ⟨w, hi, ho, sh, hval⟩ := meg_spec' hw har h
-  exact ⟨w, by rw [hi]; exact List.Sublist.refl _, ho, arOK_of_shape sh, hval⟩
+  exact ⟨w, by rw [hi]; exact List.Sublist.refl _, ho, arOK_of_shape sh, size_of_shape w.nodup sh, hval⟩
 
 /-- the four passes (compositions are flattened by linearisation before they run) -/
 def Proved : Tr → Prop
